@@ -251,6 +251,9 @@ pub fn o_callbacks(plan: &Plan, out: &Outcome, vs: &mut Vec<Violation>) {
         if m.ends.is_some() {
             break;
         }
+        if m.recover.is_some() && !recover_succeeded(out, m) {
+            return;
+        }
     }
     if gi < got.len() {
         vs.push(v(
@@ -977,6 +980,11 @@ pub fn o_replies(plan: &Plan, out: &Outcome, vs: &mut Vec<Violation>) {
         if m.grammar == Grammar::NoReply {
             continue;
         }
+        if m.recover.is_some() && !recover_succeeded(out, m) {
+            // the shim could not report the failure (finish_error refused): the error ends the
+            // connection, nothing more is owed
+            break;
+        }
         let d = match &w.replies[u] {
             Some(Ok(d)) => d,
             Some(Err(msg)) => {
@@ -998,6 +1006,13 @@ pub fn o_replies(plan: &Plan, out: &Outcome, vs: &mut Vec<Violation>) {
                 return;
             }
         };
+        if let (Some(exp), DecResp::Units(got)) = (&m.recover, &d.resp) {
+            units_eq(exp, got, u, vs);
+            if !vs.is_empty() {
+                return;
+            }
+            continue;
+        }
         match (&m.reply, &d.resp) {
             (Reply::Unconstrained, _) | (Reply::None, _) => {}
             (Reply::Units(exp), DecResp::Units(got)) => units_eq(exp, got, u, vs),
@@ -1066,6 +1081,18 @@ pub fn o_replies(plan: &Plan, out: &Outcome, vs: &mut Vec<Violation>) {
                 w.flushed - w.dec_pos
             ),
         ));
+    }
+}
+
+/// did the shim's finish_error for this (recovering) command report success?
+pub fn recover_succeeded(out: &Outcome, m: &CmdModel) -> bool {
+    match m.act_index {
+        Some(ai) => out
+            .w
+            .api
+            .iter()
+            .any(|a| a.act as usize == ai && a.call == "finish_error" && a.ok),
+        None => false,
     }
 }
 
